@@ -21,10 +21,13 @@
      c05_refused_no_trace (the state after a refused call is indistinguishable from the state before), c05_continue_accepted (EVERY history: the
      text is the text of the accepted calls alone, from every indistinguishable state), c05_continue_roundtrip (... and is read back as their
      normal form).  The former exception (fHead_ set by a refused weight rule with empty head) was a defect, repaired in /repo 82b5ba2.
+   * ONE writer object used for several programs (initProgram on a writer in ANY state): c05_init_any_state, c05_begin_forgets,
+     c05_second_program_like_fresh (same statuses, exactly the text a new writer with the same extensions flag / false atom appends),
+     c05_second_program_roundtrip, c05_history_then_program (any first history, then a program of the fragment: read back as its normal form).
    NOT covered by the theorem (outside the property's quantifier, see notes/C05.md): names containing LF/CR/NUL, negative rule-body weights,
    minimize/external after symbols, |minimize weight| = 2^31, values outside the C types. *)
 Require Import V.Lib.Base V.Lib.Calls V.Lib.Dec V.C09.Spec V.Gen.Consts V.Gen.Consts_C07 V.C07.Model V.C07.ProofsLex.
-Require Import V.C05.Model V.C05.Spec V.C05.Proofs V.C05.ProofsRT V.C05.ProofsLines V.C05.ProofsComp V.C05.XCheck V.C05.ProofsCont.
+Require Import V.C05.Model V.C05.Spec V.C05.Proofs V.C05.ProofsRT V.C05.ProofsLines V.C05.ProofsComp V.C05.XCheck V.C05.ProofsCont V.C05.ProofsReuse.
 Require Import Permutation.
 Local Open Scope Z_scope.
 
@@ -314,3 +317,71 @@ Proof. repeat split; vm_compute; reflexivity. Qed.
 (* the one member a refused call can change: refused init(true) without extensions stores inc_ = true - a different record, an indistinguishable state *)
 Example c05_ex_obs_eq : obs_eq (sm_refused_state (w_init false 0) (CInit true)) (w_init false 0) /\ sm_refused_state (w_init false 0) (CInit true) <> w_init false 0.
 Proof. split; [apply refused_obs_eq; reflexivity | vm_compute; discriminate]. Qed.
+
+(* ================= one writer object, several programs (writer reuse) ================= *)
+(* SmodelsOutput::initProgram(b) assigns inc_ = b whatever it was; beginStep assigns sec_ = 0 and fHead_ = false; false_ and ext_ are constructor
+   arguments.  fresh_of s = the NEW writer with the constructor arguments of s.  sm_step returns the bytes a call APPENDS, so every statement below
+   is "behind the bytes already written".
+   initProgram(inc) on a writer in ANY state s - after a complete incremental program, a program abandoned anywhere, refused calls - and on any
+   writer s' with the same constructor arguments (in particular the new one): same status, nothing written, and the resulting states (the
+   caught refusal included) agree on false_, ext_, inc_; only sec_ / fHead_ are still those s had (they belong to a step) *)
+Theorem c05_init_any_state : forall s s' inc, ctor_eq s s' ->
+  match sm_step s (CInit inc), sm_step s' (CInit inc) with
+  | WOk a t, WOk b t' => t = [] /\ t' = [] /\ prog_eq a b /\ w_sec a = w_sec s /\ w_fhead a = w_fhead s
+  | WErr, WErr => prog_eq (sm_refused_state s (CInit inc)) (sm_refused_state s' (CInit inc))
+  | _, _ => False
+  end.
+Proof. exact init_prog_eq. Qed.
+Print Assumptions c05_init_any_state.
+(* ... and beginStep removes that rest: EQUAL bytes and EQUAL state records *)
+Theorem c05_begin_forgets : forall s s', prog_eq s s' -> sm_step s CBegin = sm_step s' CBegin.
+Proof. exact begin_eq. Qed.
+Print Assumptions c05_begin_forgets.
+(* the second program: initProgram (followed by further initProgram calls, e.g. a refused initProgram(true) the caller catches and corrects),
+   beginStep, then ANY calls cs (any number of steps, refused calls, calls outside the fragment): on a writer in ANY state s they get the
+   same statuses and append exactly the text they get from a new writer - for the caller that stops at the first refusal (sm_run: text,
+   all-accepted flag) and for the caller that catches and continues (sm_run_c: text, one accepted flag per call) *)
+Theorem c05_second_program_like_fresh : forall s inc ins cs, forallb is_init ins = true ->
+  sm_run s (CInit inc :: ins ++ CBegin :: cs) = sm_run (fresh_of s) (CInit inc :: ins ++ CBegin :: cs) /\
+  sm_run_c s (CInit inc :: ins ++ CBegin :: cs) = sm_run_c (fresh_of s) (CInit inc :: ins ++ CBegin :: cs).
+Proof. exact second_program_like_fresh. Qed.
+Print Assumptions c05_second_program_like_fresh.
+(* property level: a program of the fragment handed to a writer in ANY state is written completely, with the text of a new writer, and is read
+   back as its normal form *)
+Theorem c05_second_program_roundtrip : forall s flt p, in_fragment (w_ext s) (w_false s) p = true ->
+  exists t, sm_run s p = (t, true) /\ sm_run (fresh_of s) p = (t, true) /\
+            read_smodels (mkopts (w_ext s) flt) t = (sm_norm (w_false s) p, Ok tt).
+Proof. exact second_program_roundtrip. Qed.
+Print Assumptions c05_second_program_roundtrip.
+(* the same as a history: ANY calls cs1 on a new writer (a caller that catches refusals; complete programs, abandoned ones, nonsense), then a
+   program p of the fragment: all calls of p are accepted, the text appended for p is the text t2 of p on a new writer and is read back as sm_norm f p *)
+Theorem c05_history_then_program : forall ext f flt cs1 p, in_fragment ext f p = true ->
+  exists t2, sm_run_c (w_init ext f) (cs1 ++ p) =
+               (fst (sm_run_c (w_init ext f) cs1) ++ t2, snd (sm_run_c (w_init ext f) cs1) ++ repeat true (length p)) /\
+             sm_run (w_init ext f) p = (t2, true) /\
+             read_smodels (mkopts ext flt) t2 = (sm_norm f p, Ok tt).
+Proof. exact history_then_program. Qed.
+Print Assumptions c05_history_then_program.
+
+(* non-vacuity: an incremental program (extensions on, false atom 7) abandoned behind its compute statement with the false atom used leaves
+   inc_ = true, sec_ = 2, fHead_ = true; initProgram(false) keeps sec_ / fHead_ (code as it is), beginStep clears them; the ordinary program that
+   follows is in the fragment and gets the text of a new writer: no "90 0" line (the line seeded change C05-r9 leaves in), no 7 under B- *)
+Definition ex_reuse_first : list call :=
+  [CInit true; CBegin; CRule 0 [] [1]; CEnd; CBegin; CRule 0 [] [2]; COutput [97] [1]; CAssume [1; -2]; COutput [98] [2]].
+Definition ex_reuse_second : list call := [CInit false; CBegin; CRule 0 [1] [2; -3]; COutput [97] [1]; CEnd].
+Example c05_ex_reuse :
+  let s := sm_state_c (w_init true 7) ex_reuse_first in
+  s = mkw 7 true 2 true true /\
+  snd (sm_run_c (w_init true 7) ex_reuse_first) = [true; true; true; true; true; true; true; true; false] /\
+  sm_step s (CInit false) = WOk (mkw 7 true 2 false true) [] /\
+  in_fragment (w_ext s) (w_false s) ex_reuse_second = true /\
+  sm_run s ex_reuse_second = sm_run (w_init true 7) ex_reuse_second /\
+  fst (sm_run s ex_reuse_second) =
+    [49;32;49;32;50;32;49;32;51;32;50;10; 48;10; 49;32;97;10; 48;10; 66;43;10; 48;10; 66;45;10; 48;10; 49;10].
+Proof. cbv zeta. repeat split; vm_compute; reflexivity. Qed.
+(* the boundary of the statement: beginStep is what clears sec_ / fHead_.  A rule handed over between initProgram and beginStep (outside the
+   AbstractProgram protocol) still meets the section of the earlier program: refused here, written by a new writer *)
+Example c05_ex_reuse_needs_begin_step :
+  let s := sm_state_c (w_init true 7) ex_reuse_first in
+  sm_run s [CInit false; CRule 0 [1] []] = ([], false) /\ snd (sm_run (fresh_of s) [CInit false; CRule 0 [1] []]) = true.
+Proof. cbv zeta. split; vm_compute; reflexivity. Qed.
